@@ -24,20 +24,23 @@ Theorem C03_refuted :
 Proof. exact (conj P1_refuted (conj P2_refuted (conj P3_refuted P4_refuted))). Qed.
 Print Assumptions C03_refuted.
 
-(* ---- unbounded part: nests of  if ... then ... [else ...] end if ---- *)
+(* ---- unbounded part: nests of  if ... then ... [else ...] end if  and  repeat while ... end repeat ---- *)
 From DRX Require Import Py.PyBytes Model.LingoGen Model.LingoOps Model.LingoLoop Spec.SpecLingo Spec.SpecNest
   Proofs.LingoExecFacts Proofs.LingoStmtFacts Proofs.LingoNestFacts Proofs.LingoNestExec.
 Open Scope Z_scope.
 
 (* For every program built from straight-line statements (assignments to every kind of variable, statement
-   calls),  if <any expression> then <non-empty body> end if  and  if ... then <body> else <body> end if,  nested to ANY
-   depth with ANY number of statements per body (the only bound is the two-byte jump offset of the format): running the handler's
+   calls),  if <any expression> then <non-empty body> end if,  if ... then <body> else <body> end if  and
+   repeat while <expression> <body> end repeat  (the condition not of the  x <= n / x >= n  counting form nor starting
+   with a constant, which loop_detect reads as repeat with), nested to ANY depth with ANY number of statements per body
+   (the only bounds are those of the format: two-byte forward jump offsets, one-byte backward jump): running the handler's
    compiled code through the stack machine and the control-flow passes (detect = condition_detect, then
    loop_detect, with the fuel parse_opcodes gives them) yields exactly the source nesting - every statement once,
-   in order, inside the same branch of the same if, every if with its own condition, no raw jump left - followed by the
-   handler's exit statement.  Proof: induction over the program for the execution (LingoNestExec.exec_p), induction
-   over the nesting depth and the statement list for the passes (LingoNestFacts.detect_nest). *)
-Theorem C03_if_nests_rebuilt_unbounded :
+   in order, inside the same branch of the same if or the same loop, every if and loop with its own condition, no raw
+   jump left - followed by the handler's exit statement.  Proof: induction over the program for the execution
+   (LingoNestExec.exec_p; the backward jump gathers the statements of its loop), induction over the nesting depth and
+   the statement list for the passes (LingoNestFacts.detect_nest). *)
+Theorem C03_exit_free_nests_rebuilt_unbounded :
   forall en props p d off fuel r m,
   wf_p en p -> agrees_p en props m -> m_stack m = [] -> f_stmts (m_fn m) = [] ->
   code_at d off (compile_p p ++ [b 1]) ->
@@ -48,10 +51,10 @@ Theorem C03_if_nests_rebuilt_unbounded :
     f_stmts (m_fn m') = flats (items en props off p) ++ [exit_st] /\
     detect (f_stmts (m_fn m')) = Ok (rebuilt en props off p ++ [exit_st]).
 Proof. exact nest_handler. Qed.
-Print Assumptions C03_if_nests_rebuilt_unbounded.
+Print Assumptions C03_exit_free_nests_rebuilt_unbounded.
 
 (* the passes alone, on any well-positioned flat list (the form the theorem above shows the machine leaves) *)
-Theorem C03_passes_rebuild_any_nest : forall l lo hi, wp lo hi l -> detect (flats l) = Ok (trees l).
+Theorem C03_passes_rebuild_any_nest : forall l lo hi, wp lo hi l -> detect (flats l) = Ok (fins l).
 Proof. exact detect_nest. Qed.
 Print Assumptions C03_passes_rebuild_any_nest.
 
@@ -63,9 +66,11 @@ Definition nest3 : prog :=
   PStmt (put_s 1)
    (PIf (c_lt 2) (PStmt (put_s 3) (PIfE (c_lt 4) (PIf (c_lt 5) (PStmt (put_s 6) (PStmt (SSet (TLoc 1) (EInt 7)) PNil)) (PStmt (put_s 8) PNil))
                                                  (PIfE (c_lt 11) (PStmt (put_s 12) PNil) (PStmt (put_s 13) PNil) PNil) (PStmt (put_s 9) PNil)))
-   (PIfE (c_lt 14) (PStmt (put_s 15) PNil) (PIf (c_lt 16) (PStmt (put_s 17) PNil) PNil) (PStmt (put_s 10) PNil))).
+   (PIfE (c_lt 14) (PStmt (put_s 15) PNil) (PIf (c_lt 16) (PStmt (put_s 17) PNil) PNil)
+   (PWhile (c_lt 18) (PStmt (put_s 19) (PIf (c_lt 20) (PWhile (c_lt 21) (PStmt (put_s 22) PNil) (PStmt (put_s 23) PNil)) PNil))
+   (PIf (c_lt 24) (PWhile (c_lt 25) (PIfE (c_lt 26) (PStmt (put_s 27) PNil) (PStmt (put_s 28) PNil) PNil) PNil) (PStmt (put_s 10) PNil))))).
 Example C03_nest3_wf : wf_p flow_env nest3.
-Proof. cbn. repeat split; try lia; try discriminate. Qed.
+Proof. cbn. repeat split; try lia; try discriminate; intros; reflexivity. Qed.
 Example C03_nest3_run :
   decompile_handler (compile_p nest3 ++ [b 1])
   = Ok (rebuilt flow_env [] 0 nest3 ++ [let e := zlen (compile_p nest3) in Stmt e (Call "exit" e None true false false)]).
